@@ -40,7 +40,9 @@ def plan(tier):
   return [
       (0, 4, product(VERSIONS, DIALECTS, (1,), ALL) +
              product(VERSIONS, DIALECTS, (2, 3), ("list",)) +
-             product((None,), ("standard",), (0, 1, 3), ("carry",))),
+             # (level >= 1: level 0 is documented to skip the cross-check
+             # between a VN header and the content)
+             product((None,), ("standard",), (1, 2, 3), ("carry",))),
       (5, 5, product((None,), ("standard",), (1,), ("list",))),
   ]
 
